@@ -21,7 +21,7 @@ func init() {
 			"C06.empty: DefaultComparePreRelease over (len(a)?0, len(b)?0): both empty 0, only a empty +1, only b empty −1. " +
 			"C06.build: no function reachable from Ver.Compare reads Ver.Build. C06.entry: the six string helpers parse both inputs with their own parser, test both errors, and return parse(a).Compare(parse(b)) / .Latest; an error is returned only behind the failing edge of one of the two parse calls. C06.parse: the decision table of sem.unmarshalText and its field ← capture mapping (as C03.gate / C03.num): the compared fields are the captures of the pattern applied to the whole input. C06.latest: Ver.Latest returns the argument exactly when Compare = −1 and the receiver otherwise (as C14.latest). " +
 			"C06.sep: some constant containing '.' is used by the code reachable from DefaultComparePreRelease (identifier-wise comparison must see the separator). " +
-			"C06.num: where the code establishes that both operands are all-digit, every path to the result contains a length comparison or numeric conversion. C06.range: every result of the comparison chain lies in {−1,0,1} (C14.range under this property) — Latest and the helpers test it against −1 / 1.",
+			"C06.num: where the code establishes that both operands are all-digit, every path to the result contains a length comparison or numeric conversion. C06.range: every result of the comparison chain lies in {−1,0,1} (C14.range under this property) — Latest and the helpers test it against −1 / 1. C06.alias: the parsed Ver's strings are copies, package sem imports no unsafe (sem part of C17.alias): a reused input buffer cannot change a version already parsed.",
 		NotDecided:  []string{"full conformance of the identifier-wise comparison for all strings (value-level string scan)", "the pinned a01 == a1 departure is untouched by every rule"},
 		Assumptions: []string{"strings.Compare ∈ {-1,0,1}"},
 		Technique:   "predicate abstraction over orderings + field-access and constant-use rules over go/ssa",
@@ -58,6 +58,10 @@ func runC06(e *Env) {
 	// Latest and the string helpers test the result against −1 / 1: the comparison's range is {−1,0,1} (C14.range)
 	e.As(map[string]string{"C14.range": "C06.range"}, func() { ruleC14Range(e) })
 	e.S.Floor("C06.range", 3)
+	// what is compared is the text that was parsed: the Ver's strings are copies, not views of the caller's bytes
+	// (sem part of C17.alias) — a reused buffer must not change an already parsed version
+	ruleAliasFree(e, "C06.alias", true)
+	e.S.Floor("C06.alias", 4)
 }
 
 // ruleC06Core: Ver.Compare over the 27 orderings of (Major, Minor, Patch).
@@ -365,8 +369,19 @@ func ruleC06Entry(e *Env, rule string) {
 				ret = true
 			}
 		}
+		// … and nothing else is: a success that does not come from comparing the two parsed values (a shortcut on the
+		// texts) answers for texts no parser has seen
+		stray := ""
+		for _, r := range flow.Returns(fn) {
+			rv := flow.ReturnValues(r)
+			if len(rv) == 2 && flow.IsNilConst(rv[1]) && rv[0] != ssa.Value(mcall) {
+				stray = e.posOf(r)
+			}
+		}
 		if !ret {
 			e.S.Bad(rule, site, "return", "the method's result is not returned unchanged with a nil error", e.Pos(fn), "")
+		} else if stray != "" {
+			e.S.Bad(rule, site, "return", x.name+" also succeeds ("+stray+") with a result that is not parse(a)."+x.method+"(parse(b)): on that path the texts are not validated and the answer is not the comparison of the parsed values", e.Pos(fn), "two identical invalid texts")
 		} else {
 			e.S.Ok(rule, site, "return", "method result returned unchanged with nil error", e.Pos(fn))
 		}
